@@ -725,8 +725,17 @@ func execInner(pool []*item, c Call, geomRes func(geom.T, error) string, bytesRe
 		err := igc.NewEncoder(&buf, igc.A("XYZ")).Encode(ls)
 		return fmt.Sprint(buf.String(), err)
 	case "kml.Encode":
-		if a.g.Layout == 5 || (a.g.Kind == model.Point && a.g.C0 == nil) || a.g.HasEmptyPart() || a.g.Empty() {
+		if a.g.Layout == 5 {
 			return "n/a"
+		}
+		if (a.g.Kind == model.Point && a.g.C0 == nil) || a.g.HasEmptyPart() || a.g.Empty() {
+			// the element tree of a geometry with empty parts cannot always be written
+			// as XML (a MultiPoint leaves gaps); building it must still leave the
+			// geometry as it was, which the snapshots around this call decide
+			if _, err := kml.Encode(t); err != nil {
+				return "err:" + err.Error()
+			}
+			return "built"
 		}
 		e, err := kml.Encode(t)
 		if err != nil {
